@@ -166,6 +166,24 @@ def split_frames(hexs):
     return out
 
 
+def policy_projection():
+    """what C14/C15 constrain: which keys are stored with how many bytes, the accounted usage, and whether the
+    evictions were ones the accounting rule allows — not values, flags, CAS or responses"""
+    def pj(op, line):
+        if op.startswith("dump") and " | " in line:
+            body, tail = line[5:].split(" | ", 1)
+            ents = []
+            for e in body.split(";"):
+                if e:
+                    f = dict(x.split("=", 1) for x in e.split(" "))
+                    ents.append(f"{f['k']}:{0 if f['v'] == '-' else len(f['v']) // 2}")
+            return "dump " + ",".join(sorted(ents)) + " | " + tail
+        if op.startswith("req ") or op.startswith("evict"):
+            return "-"
+        return line
+    return pj
+
+
 def framing_projection(with_dump=False, with_status=False):
     """what the framing properties (C09, C12, C13, C18) constrain: which requests were answered, in what order,
     whether the connection closed — not the store-level content of the answers (other properties own that)"""
@@ -196,13 +214,29 @@ def framing_projection(with_dump=False, with_status=False):
     return pj
 
 
+class HarnessHang(Exception):
+    """the implementation did not return: the trace holds every line up to the one that hangs"""
+    def __init__(self, suite, outdir, timeout):
+        self.suite, self.outdir, self.timeout = suite, outdir, timeout
+        tr = os.path.join(outdir, "trace.txt")
+        self.lines = read_lines(tr) if os.path.exists(tr) else []
+
+    def program(self):
+        starts = [i for i, l in enumerate(self.lines) if l.startswith("new")]
+        a = starts[-1] if starts else 0
+        return self.lines[a:]
+
+
 def run_harness(suite, outdir, args, timeout=3000):
     shutil.rmtree(outdir, ignore_errors=True)
     os.makedirs(outdir, exist_ok=True)
     cmd = [BIN, suite, "--out", outdir]
     for k, v in args.items():
         cmd += [f"--{k}", str(v)]
-    rc, out = sh(cmd, timeout=timeout)
+    try:
+        rc, out = sh(cmd, timeout=timeout)
+    except subprocess.TimeoutExpired:
+        raise HarnessHang(suite, outdir, timeout)
     if rc != 0:
         raise RuntimeError(f"harness {suite} failed rc={rc}: {out[-2000:]}")
     rcm = run_model(os.path.join(outdir, "ops.txt"), os.path.join(outdir, "model.txt"))
